@@ -210,7 +210,10 @@ func (e *Engine) repairVariants(fn *types.Func, fc *FuncContract) []contractVari
 			sp.Loops[-1] = ls
 			cp := *fc
 			cp.Spec = sp
-			vs = append(vs, contractVariant{&cp, "the function's preconditions are used as the invariant of a loop that is new since the baseline", ""})
+			// a call of the function itself that has become an iteration of the new loop no longer is a call site: the
+			// clauses the contract has about such calls (oncall on itself, callee preconditions) are replaced by the
+			// preservation of the invariant, which is the same preconditions
+			vs = append(vs, contractVariant{&cp, "the function's preconditions are used as the invariant of a loop that is new since the baseline (clauses about calls of the function itself that have become iterations of that loop are covered by the preservation of this invariant only)", ":" + funcKey(fn) + "@" + fn.Name()})
 		}
 	}
 	// (a) an identifier of the invariants replaced by a local that is new since the baseline, same type
